@@ -413,6 +413,11 @@ def make_corpus(rng, counts):
         P = g_tmp.problem()
         if i % 10:
             P["timed_goals"] = []  # the writer rejects timed goals (kept in a tenth of the slice to exercise the rejection)
+        for j, te in enumerate(P["timed_effects"]):
+            # PDDL timed initial literals are unconditional; a quarter keeps its condition (known finding: the
+            # writer emits "(at t (when ...))", which no reader accepts)
+            if (i + j) % 4:
+                te["e"]["c"] = upj.TRUE_E
         if i % 3 == 0:
             P["metric"] = {"kind": "makespan", "costs": [], "default": upj.E("none"), "expr": upj.E("none"), "goals": []}
             P["nmetrics"] = 1
@@ -799,7 +804,7 @@ def run(ctx):
         reader = R["reader"] if R is not None else "writer"
         extra = ""
         if clause == "ai-reader-missing-requirement":
-            extra = _requirement(R["rmsg"])
+            extra = _requirement(R["rmsg"]) + ("@problem-file" if "problem.py" in R.get("rwhere", "") else "@domain-file")
         sig = signature(reader, clause, feats, extra)
         data = {"clause": clause, "detail": detail, "slice": rec["slice"], "features": feats, "problem": rec["P"],
                 "domain_pddl": rec["W"]["dom"], "problem_pddl": rec["W"]["prob"], "writer_exception": [rec["W"]["wexc"], rec["W"]["wmsg"]]}
